@@ -352,6 +352,22 @@ def run(ctx, res):
                     found += 1
                     if found >= 3:
                         break
+            # physical points (E(z)^2 > 0 on the whole interval) whose E(z)^2 comes CLOSE to zero: strongly closed
+            # universes with very long comoving distances (beyond the antipode the transverse distance changes sign)
+            found = 0
+            zgrid = [ztop * k / 60.0 for k in range(61)]
+            for _ in range(6000):
+                om, ok = rng.uniform(lo[io], up[io]), rng.uniform(lo[ik], min(up[ik], -0.2))
+                if 1 - om - ok <= 0 or not physical(om, ok, ztop):
+                    continue
+                m = min(e2(om, ok, z) for z in zgrid)
+                if 0 < m < 0.08:
+                    x = gen_vector(rng, lo, up, "inside")
+                    x[io], x[ik] = om, ok
+                    vectors.append(("olcdm_near_dip", x))
+                    found += 1
+                    if found >= 4:
+                        break
         for kind, x in vectors:
             np.random.seed(ctx.np_seed())
             fails, out, counts, raw, sne_val, inside, phys, kw = oracle(cfg, cl, x, kind, lo, up)
